@@ -30,7 +30,7 @@ package jd
 //@ contract JsonNode.Equals
 //@   requires validNode(self) && validNode(n)
 //@   ensures ret0 == specEq(self, n, options)
-//@   carries C04
+//@   carries C04 C15
 
 //@ contract (jsonList).Equals
 //@   loop "range l1" invariant specEqList(l1[:idx], l2[:idx], options)
@@ -64,10 +64,10 @@ package jd
 //@   trusted
 //@ contract JsonNode.Json
 //@   requires validNode(self)
-//@   carries C13
+//@   carries C13 C15
 //@ contract JsonNode.Yaml
 //@   requires validNode(self)
-//@   carries C13
+//@   carries C13 C15
 
 // Set and multiset equality is decided by comparing combined hash codes; its agreement with
 // specEq rests on the hash function (see C04) and is checked on a bounded universe only.
@@ -115,21 +115,21 @@ package jd
 //@   requires validNode(self) && validNode(n) && validPath(p) && validStrategy(strategy)
 //@   ensures validDiff(ret0)
 //@   ensures [C05] (len(ret0) == 0) == specEq(self, n, options)
-//@   carries C13 C05 C07 C01
+//@   carries C13 C05 C07 C01 C15
 
 //@ contract JsonNode.Diff
 //@   requires validNode(self) && validNode(n)
 //@   ensures validDiff(ret0)
 //@   ensures [C05] (len(ret0) == 0) == specEq(self, n, options)
-//@   carries C13 C05 C07 C01
+//@   carries C13 C05 C07 C01 C15
 
 //@ contract JsonNode.hashCode
 //@   requires validNode(self)
-//@   carries C13 C04
+//@   carries C13 C04 C15
 
 //@ contract JsonNode.raw
 //@   requires validNode(self)
-//@   carries C13
+//@   carries C13 C15
 
 //@ contract diff
 //@   requires validNode(a) && validNode(b) && validPath(p) && validStrategy(strategy) && !specIsContainer(a)
@@ -155,6 +155,7 @@ package jd
 //@   carries C13 C05
 
 //@ contract (Path).clone
+//@   fresh ret0
 //@   ensures len(ret0) == len(p)
 //@   ensures validPath(p) ==> validPath(ret0)
 //@   ensures forallInt(0, len(p), func(i int) bool { return samePE(ret0[i], p[i]) })
@@ -193,3 +194,50 @@ package jd
 //@   bounded
 //@ contract (jsonMultiset).diff
 //@   bounded
+
+// ---------------------------------------------------------------------
+// Rendering (C15 frames: none of these may write to the diff they are given).
+
+//@ contract (Diff).RenderPatch
+//@   requires validDiff(d)
+//@   carries C15 C13 C09
+
+//@ contract (Diff).RenderMerge
+//@   requires validDiff(d)
+//@   loop "range d" invariant len(nulled) == len(d) && forallInt(0, idx, func(i int) bool { return validHunk(nulled[i]) })
+//@   loop "range e.Add" invariant validHunk(e)
+//@   carries C15 C13 C11
+
+//@ contract (Diff).Render
+//@   requires validDiff(d)
+//@   carries C15 C13 C02
+
+//@ contract (DiffElement).Render
+//@   requires validHunk(d)
+//@   carries C15 C13 C02
+
+//@ contract (Path).JsonNode
+//@   requires validPath(p)
+//@   fresh ret0
+//@   ensures validNode(ret0) && specIsRawArray(ret0)
+//@   loop "range p" invariant forallInt(0, idx, func(i int) bool { return validNode(a[i]) })
+//@   carries C13 C02 C09
+
+//@ contract (jsonObject).hashCode
+//@   loop "range o" invariant forallInt(0, len(keys), func(i int) bool { return mapHas(o, keys[i]) })
+
+//@ contract (jsonSet).raw
+//@   loop "range s" invariant forallKey(sMap, sMap, func(k [8]byte) bool { return validNode(sMap[k]) })
+//@   loop "range sMap" invariant forallInt(0, len(hashes), func(i int) bool { return mapHas(sMap, hashes[i]) })
+
+//@ contract verifPure
+//@   bounded
+//@   requires validNode(a) && validNode(b)
+//@   ensures_bounded ret0
+//@   carries C15
+
+//@ contract verifReadMergeDeterministic
+//@   bounded
+//@   requires validNode(n) && !isVoid(n)
+//@   ensures_bounded ret0
+//@   carries C15
